@@ -71,6 +71,8 @@ def check_alphabet(chk) -> None:
     for fi in (mk, post, fcfs):
         chk.note_function(fi)
     brackets = local_value(chk, mk, "brackets")
+    if isinstance(brackets, list) and all(isinstance(b, (tuple, list)) and len(b) == 2 and all(isinstance(c, str) and len(c) == 1 for c in b) for b in brackets):
+        brackets = ["".join(b) for b in brackets]  # (opening, closing) pairs are the same table
     opening = local_value(chk, post, "opening")
     closing = local_value(chk, post, "closing")
     ok = (
@@ -771,6 +773,16 @@ def _inside(outer: ast.AST, node: ast.AST) -> bool:
 
 
 def check_fill(chk) -> None:
+    """The fill: fact level first (every level, nested stems, the decoder reads it back), affine loop summary as the fallback."""
+    from checks import c01e
+
+    fi = chk.repo.func(MOD, "BpSeq.__make_dot_bracket")
+    if decided(chk, "fill") or fact_first(chk, "fill", fi.where, c01e.fill_fact(chk)):
+        return
+    check_fill_pinned(chk)
+
+
+def check_fill_pinned(chk) -> None:
     repo = chk.repo
     fi = repo.func(MOD, "BpSeq.__make_dot_bracket")
     chk.note_function(fi)
@@ -1346,6 +1358,9 @@ def run(chk) -> None:
         chk.floor("conflict-predicate", n_pred)
     chk.floor("fill-stores", 1)
     chk.floor("alphabet-agree", 1)
+    # a solve that ends without an optimum must not be read back (all stems would land on level 0: crossing stems share '()')
+    if not fact_first(chk, "unsolved", repo.func(MOD, "BpSeq.convert_to_dot_bracket").where, c01e.unsolved_readback_fact(chk, "encoder-unsolved")):
+        pass  # C13 / C02 read the pinned form of the status test
     # every encoder returns through the verified fill
     for q, tag in (("BpSeq.convert_to_dot_bracket", "uses-fill"), ("BpSeq.all_dot_brackets", "enumeration")):
         fi = repo.func(MOD, q)
@@ -1364,7 +1379,7 @@ ROBUST = {
     "decoder-lifo", "decoder-early-exit", "fcfs-scan-exit", "fcfs-available-reset", "fcfs-mark", "fcfs-choice", "greedy-choice",
     "components-walk", "greedy-perms", "greedy-earlier-exit", "greedy-mark", "product", "product-skip",
     # fact-level rules (checks/c01e.py): evaluated on every class of a finite input partition
-    "fcfs-first-fit", "fcfs-levels", "conflict-graph-fact", "enumeration-fact", "stems-run-fact", "stems-source", "from-db-fact", "bpseq-pairs-fact", "history-independent", "encoder-result-fact",
+    "fcfs-first-fit", "fcfs-levels", "conflict-graph-fact", "enumeration-fact", "stems-run-fact", "stems-source", "from-db-fact", "bpseq-pairs-fact", "history-independent", "encoder-result-fact", "encoder-unsolved", "fill-result",
 }
 
 
